@@ -52,6 +52,8 @@ TARGETS: t.List[t.Tuple[t.Any, t.Set[str]]] = [
     (['dict', 'str', 'int'], {'map'}), (['dict', 'any', 'any'], {'map'}), (['struct', ['k', 'int']], {'map'}),
     ('dc_struct', {'map'}), ('dc_strs', {'map', 'seq'}), ('dc_both', {'map', 'seq'}),
     (['optional', 'int'], {'int', 'none'}), (['deque', 'str'], {'seq'}), (['counter', 'str'], {'map'}),
+    # numpy scalar types as targets (the array add-on maps them onto the Python kinds)
+    ('np_int64', {'int'}), ('np_float64', {'float', 'int'}), ('np_bool', {'bool'}), ('np_str', {'str'}),
 ]
 NUMBERS = {'int', 'float', 'complex'}
 
@@ -174,6 +176,9 @@ _T_CACHE: t.Dict[str, t.Any] = {}
 
 
 def build_target(ast):
+    if isinstance(ast, str) and ast.startswith('np_'):
+        import numpy
+        return {'np_int64': numpy.int64, 'np_float64': numpy.float64, 'np_bool': numpy.bool_, 'np_str': numpy.str_}[ast]
     return grammar.build(ast)
 
 
@@ -203,6 +208,29 @@ def eval_cell(pane, ctxs, di, ti, cpath, res, mode='plain'):
         unwraps.append(un)
     names = [ctxs[ci][0] for ci in cpath]
     in_union = any(n.startswith('union') for n in names)
+    if mode == 'construct':
+        # the constructor converts its arguments like from_data: an argument of another kind that merely EQUALS the field's
+        # default (1.0 for `f: int = 1`, 0 for `f: bool = False`) is still of another kind
+        cand = next((c for c in {'int': [0, 1, 2], 'bool': [False, True], 'float': [0.0, 1.0, 2.0], 'complex': [complex(1, 0), complex(2, 0)],
+                                 'np_int64': [0, 1], 'sub_int': [0, 1]}.get(ast if isinstance(ast, str) else '', [])
+                     if isinstance(v, (int, float, complex)) and c == v and type(c) is not type(v)), None)
+        if cand is None or vd != 'forbidden' or names != ['top']:
+            return
+        Cls = grammar.pin(type('CtxDef', (pane.PaneBase,), {'__annotations__': {'f': T}, 'f': cand, '__module__': 'mc.generated'}))
+        res['states'] += 1
+        res['evals'] += 1
+        res['transitions'] += 1
+        res['validated'] += 1
+        try:
+            got = Cls(f=v).f
+        except ConvertError:
+            return
+        except Exception as e:  # noqa
+            got = e
+        core.add_violation(res, {'kind': 'constructor_accepts_other_kind_equal_to_default', 'vkind': vkind, 'target': grammar.render(ast)},
+                           f"Cls(f={v!r}) for `f: {grammar.render(ast)} = {cand!r}` gave {got!r} ({type(got).__name__}): a {vkind} was accepted as {grammar.render(ast)}",
+                           {'d': di, 't': ti, 'ctx': list(cpath), 'mode': mode}, 3)
+        return
     res['states'] += 1
     cell = {'d': di, 't': ti, 'ctx': list(cpath), 'mode': mode}
     desc = f"from_data({values.expr(data)[:80]}, {grammar.render(ast)} in context {'/'.join(names)}{', custom={int: <stock int converter>}' if mode != 'plain' else ''})"
@@ -293,7 +321,7 @@ def run_shard(shard, tier):
     for ti in range(len(TARGETS)):
         for p in paths:
             # 'custom': the same call with custom={int: stock int converter} (single contexts, and inside list / dict value)
-            for mode in (('plain', 'custom') if len(p) == 1 or p[0] in (1, 4) and tier == 'thorough' else ('plain',)):
+            for mode in (('plain', 'custom') + (('construct',) if p == (0,) else ()) if len(p) == 1 or p[0] in (1, 4) and tier == 'thorough' else ('plain',)):
                 try:
                     eval_cell(pane, ctxs, di, ti, p, res, mode)
                 except Exception as e:  # noqa
